@@ -9,11 +9,14 @@ import (
 	"encoding/hex"
 	"encoding/json"
 	"fmt"
+	"sync"
+	"time"
 
 	"github.com/LemoFoundationLtd/lemochain-core/chain/params"
 	"github.com/LemoFoundationLtd/lemochain-core/chain/types"
 	"github.com/LemoFoundationLtd/lemochain-core/common"
 	"github.com/LemoFoundationLtd/lemochain-core/common/rlp"
+	"github.com/LemoFoundationLtd/lemochain-core/common/verifhook"
 
 	"verif/fx"
 	"verif/fx/run"
@@ -197,6 +200,24 @@ func (m *monitor) deliver(ev Event) {
 			m.c.Stat("blocks_rejected", 1)
 		}
 		m.check("block h" + fmt.Sprint(b.Height()))
+	case "confirms-concurrent":
+		// every signature is its own packet, all of them in flight at once (the network layer starts a goroutine per
+		// confirm message)
+		fx.SetSelf(m.V.Self)
+		var wg sync.WaitGroup
+		for _, s := range ev.Sigs {
+			raw, _ := hex.DecodeString(s)
+			sig := types.BytesToSignData(raw)
+			wg.Add(1)
+			go func() {
+				defer wg.Done()
+				m.V.BC.InsertConfirms(ev.Height, common.HexToHash(ev.Hash), []types.SignData{sig})
+			}()
+		}
+		wg.Wait()
+		m.c.Stat("concurrent_confirm_deliveries", 1)
+		m.c.Stat("confirm_signatures", int64(len(ev.Sigs)))
+		m.check("concurrent confirms h" + fmt.Sprint(ev.Height) + " " + ev.Note)
 	case "confirms":
 		var sigs []types.SignData
 		for _, s := range ev.Sigs {
@@ -447,6 +468,23 @@ func scenario(c *run.Ctx, idx int, fixed bool) {
 		}
 	}
 	if hostile {
+		// one deputy's confirm in both of its encodings (and the same bytes twice), all in flight at once
+		for _, b := range built {
+			if !r.Chance(1, 2) {
+				continue
+			}
+			for _, dn := range V.DM.GetDeputiesByHeight(b.Height(), true) {
+				if dn.MinerAddress == b.MinerAddress() {
+					continue
+				}
+				if k, ok := w.DeputyByAddr(dn.MinerAddress); ok {
+					s := fx.SignBlock(b.Hash(), k)
+					tw := types.BytesToSignData(fx.HighS(s[:]))
+					events = append(events, Event{Kind: "confirms-concurrent", Height: b.Height(), Hash: b.Hash().Hex(), Sigs: sigsHex([]types.SignData{s, tw, s}), Note: "one deputy: signature, high-s twin, signature again"})
+					break
+				}
+			}
+		}
 		events = append(events, Event{Kind: "confirms", Height: head.Height() + 1, Hash: common.BytesToHash(r.Bytes(32)).Hex(), Sigs: sigsHex([]types.SignData{fx.SignBlock(common.Hash{}, w.Deputies[0])}), Note: "unknown block"})
 	}
 	// random arrival order; blocks whose parent has not arrived are offered again later (the node keeps nothing of a rejected block)
@@ -465,6 +503,7 @@ func scenario(c *run.Ctx, idx int, fixed bool) {
 					again = append(again, ev)
 				}
 			} else if round == 0 && !V.BC.HasBlock(common.HexToHash(ev.Hash)) {
+				// (both kinds of confirm deliveries)
 				again = append(again, ev) // confirms that arrived before their block are re-sent once
 			}
 		}
@@ -484,7 +523,18 @@ func scenario(c *run.Ctx, idx int, fixed bool) {
 		"final_stable": V.BC.StableBlock().Height(), "final_head": V.BC.CurrentBlock().Height()})
 }
 
+// yieldBetweenVerifyAndSave: whoever verified a confirm packet waits a moment before saving it (harmless while both happen
+// under the chain lock).
+func yieldBetweenVerifyAndSave() {
+	verifhook.SetYield(func(site string) {
+		if site == "consensus.insertConfirms:between-verify-and-save" {
+			time.Sleep(500 * time.Microsecond)
+		}
+	})
+}
+
 func runAll(c *run.Ctx) {
+	yieldBetweenVerifyAndSave()
 	fx.Quiet()
 	scn.SetParams()
 	if c.Batch == 0 {
@@ -498,6 +548,7 @@ func runAll(c *run.Ctx) {
 }
 
 func replay(c *run.Ctx, raw json.RawMessage) {
+	yieldBetweenVerifyAndSave()
 	fx.Quiet()
 	scn.SetParams()
 	var h History
